@@ -3,7 +3,7 @@
    0x46af6449, 32 trailing zero steps).  Spec: Spec/Crc32.v (textbook bit-serial register, polynomial
    0x04C11DB7, initial value 0xFFFFFFFF, MSB first, no reflection, no final XOR).
    This file holds only the statements; proofs live in Proofs/CrcRegister.v. *)
-From Gots Require Import Base.Prelude Model.Crc Spec.Crc32 Proofs.CrcRegister Proofs.CrcUnique Proofs.CrcTable.
+From Gots Require Import Base.Prelude Model.Crc Spec.Crc32 Proofs.CrcRegister Proofs.CrcUnique Proofs.CrcTable Proofs.CrcLinear.
 Local Open Scope N_scope.
 
 (* for EVERY byte string (no length bound, no side condition) the four bytes returned are the
@@ -63,6 +63,16 @@ Theorem C13_compute_crc_is_table_driven : forall bs : bytes, is_bytes bs ->
   Crc.compute_crc bs = to_be32 (Crc32.crc_tab bs).
 Proof. intros bs H. rewrite crc_tab_is_crc by exact H. apply compute_crc_is_mpeg2. Qed.
 Print Assumptions C13_compute_crc_is_table_driven.
+
+(* linearity of the register in the message, in the form used by the correspondence: the linear-time table
+   Crc32.singles_fast L holds, at index 8i+j, the CRC of the L-byte message whose only set bit is bit j (MSB = 0) of byte i;
+   this is what `crc.singles L` of modelexec answers, so that EVERY single-bit string up to 1024 bytes is compared
+   with the real code in the thorough tier *)
+Theorem C13_single_bit_all : forall L i j, (i < L)%nat -> (j < 8)%nat ->
+  nth (8 * i + j) (Crc32.singles_fast L) 0 = Crc32.crc (Crc32.single L i j) /\
+  length (Crc32.singles_fast L) = (8 * L)%nat.
+Proof. intros L i j Hi Hj. split; [apply singles_fast_nth; assumption | apply singles_fast_length]. Qed.
+Print Assumptions C13_single_bit_all.
 
 (* non-vacuity / sanity of the specification: catalogue check value of CRC-32/MPEG-2 ("123456789" -> 0x0376E6E7),
    and the model on the same input *)
